@@ -219,7 +219,7 @@ func c01Random(r *rand.Rand, tier string) c01issCase {
 		if !spelling {
 			cs.CrashLock = []string{"", "stale"}[r.Intn(2)]
 			if tier == "thorough" { // an empty lock file costs 2 s, a fresh one 10 s
-				cs.CrashLock = []string{"", "stale", "stale", "empty", "empty", "fresh"}[r.Intn(6)]
+				cs.CrashLock = []string{"", "stale", "stale", "empty", "empty", "fresh", "empty-fresh"}[r.Intn(7)]
 			}
 		}
 	}
@@ -277,10 +277,10 @@ func runC01(tier string, seed int64, outdir string, replay string) error {
 			return fmt.Errorf("corpus case fresh lock of a dead holder: %v", err)
 		}
 		c01Emit(w, cs, o)
-		// a slow holder: 12 s inside the issuer (beyond the staleness bound of 10 s); the waiter must still be
+		// a slow holder: 14 s inside the issuer (beyond the staleness bound of 10 s); the waiter must still be
 		// waiting afterwards because the holder's lock file is kept fresh
 		cs = c01issCase{Threads: []c01issThread{{Prog: "obtain", Name: c01nmCanon}, {Prog: "obtain", Name: c01nmCanon}}, Policy: "seq",
-			Pause: map[string]string{"0": "IssueEnd:"}, HoldMs: map[string]int{"0": 12000}, Backend: "file", Class: "generic"}
+			Pause: map[string]string{"0": "IssueEnd:"}, HoldMs: map[string]int{"0": 14000}, Backend: "file", Class: "generic"}
 		o, err = c01RunIssCase(cs)
 		if err != nil {
 			return fmt.Errorf("corpus case slow holder: %v", err)
